@@ -118,3 +118,11 @@ CLAIMED["C18"] = dict(category=_MC,
          "of 10 conformant environments.",
     note="no solver involved (cvc5 absent): literal environments only. One known finding (C18-dangling-reference, see known_findings.json): record-less entities get default data in the literal "
          "SymEnv; instances are recognised in the trace spec and reported as KNOWN-FINDING, every other disagreement is a violation.")
+ENGINES[0]["serves_properties"].append("C20")
+CLAIMED["C20"] = dict(category="exploration",
+    text="In the specification every entry point's outcome alphabet is {ok, err}; Trace_Robust.tla (and every other family's trace spec) cannot explain a recorded panic. MC_Tokens.tla "
+         "enumerates token sequences over the policy, schema and JSON alphabets (bare and in 12 valid skeletons) and nesting towers to depth 48; seeded structure-aware JSON mutants, "
+         "character-level mutants and protobuf wire mutants are added. Each input runs through every text/JSON/bytes entry point of its kind under catch_unwind and, on success, "
+         "through print / to_json / PST / protobuf / validate / authorize / partial / link / TPE / format; every error is rendered (Display and miette report).",
+    note="exploration, not exhaustiveness: byte strings outside these generators are not covered; all other families (C01-C19) also count a caught panic as unexplained.",
+    technique="TLA+ outcome alphabet + TLC-enumerated token sequences and nesting towers, seeded mutants, replayed into the implementation under catch_unwind; trace validation rejects any panic")
